@@ -28,6 +28,8 @@ Objects a clone has in common with its original, and why that is not a leak betw
 * the seven `io.Writer` fields of `DumpOptions`: the caller's writers.
 * `Options.ProxyConnectHeader`: the setter replaces the map, the transport only reads it
   (`hdr.Clone()` before adding `Proxy-Authorization`).
+* `http2.Transport.HeaderPriority`: a struct of three scalars held by value (no object behind it;
+  the table's kind vocabulary has no "struct of plain values").
 * `tls.Config` fields other than `Certificates` / `RootCAs`: `(*tls.Config).Clone` is shallow by
   contract and no setter of req mutates them in place.
 * `http.Client.Jar` when the client has NO jar factory (`SetCookieJar(jar)`): the caller's jar.
@@ -72,7 +74,7 @@ def designList : List (String × String) := [
   ("DumpOptions", "Output"), ("DumpOptions", "RequestOutput"), ("DumpOptions", "ResponseOutput"),
   ("DumpOptions", "RequestHeaderOutput"), ("DumpOptions", "RequestBodyOutput"),
   ("DumpOptions", "ResponseHeaderOutput"), ("DumpOptions", "ResponseBodyOutput"),
-  ("Options", "ProxyConnectHeader")]
+  ("Options", "ProxyConnectHeader"), ("H2Transport", "HeaderPriority")]
 
 /-- **SharedByDesign**: may the copy's field refer to the very object the original's refers to? -/
 def sharedByDesign (owner field : String) (kind : Kind) (ctx : Ctx) : Bool :=
